@@ -174,5 +174,5 @@ def configs(tier):
            (pins, dict(n_pin=2, n_keys=2))]
     if tier == 'thorough':
         out += [(coolant, dict(n=5)), (duct, dict(n_region_ducts=2, n_peak_ducts=3, cells=3)),
-                (pins, dict(n_pin=3, n_keys=3))]
+                (pins, dict(n_pin=3, n_keys=2))]
     return out
